@@ -128,3 +128,15 @@ pub fn resp_text(r: &Response) -> String {
         Response::VersionError { msg, key, old_version, version, old_value: _, change: _, db: _, state: _ } => ["version-error ", msg, " ", key, " ", &old_version.to_string(), " ", &version.to_string()].concat(),
     }
 }
+
+/// restart: what `start_db` in src/bin/main.rs does before serving (key map, op-log validity decision, load of all databases)
+pub fn restart_node(name: &str) -> Node {
+    let (s1, sup_rx): (Sender<String>, Receiver<String>) = channel(1000);
+    let (s2, rep_rx): (Sender<String>, Receiver<String>) = channel(1000);
+    let keys_map = crate::disk_ops::load_keys_map_from_disk();
+    let is_oplog_valid = crate::disk_ops::is_oplog_valid();
+    if !is_oplog_valid { crate::disk_ops::Oplog::clean_op_log_metadata_files(); }
+    let dbs = crate::db_ops::create_init_dbs(String::from("user"), String::from("pwd"), String::from(name), String::from(name), s1, s2, keys_map, is_oplog_valid);
+    Databases::load_all_dbs(&dbs);
+    Node { dbs, sup_rx, rep_rx }
+}
